@@ -8,14 +8,16 @@ TRUSTED = [
     "keyword_info tables (defaults, multiplier/top/global flags, SI factors) are read from the real global_kw_info<T>/UnitSystem at run time and handed to the model; the hypothesis TablesOK of inactive_independence is evaluated on them by the driver on every case (tablesOkB, answer bad-tables)",
     "modelled, not verified: Parser (deck text -> DeckItems), EclipseGrid geometry and its active map (specified by `rank`; the real Box class is driven directly with arbitrary maps), libm (pow/log/log10 are called on both sides)",
     "the one-cell semantics runProg1/runProg1N of the independence proofs are proof devices, tied to the code only through the theorems (no direct correspondence line)",
-    "outside the model: PORV/TRAN*/TEMPI/saturation end points, multi-valued (compositional) keywords (only the fixed witness), SCHEDULE-section multipliers, aliases, GRIDOPTS/MULTREGP",
+    "outside the model: PORV/TEMPI/saturation end points, multi-valued (compositional) keywords (only the fixed witness), aliases, GRIDOPTS/MULTREGP, apply_tranz_global, TRAN operations outside EDIT and rejected TRAN edits",
+    "transmissibility calculators: the ACTNUM while EDIT is scanned and the final ACTNUM are inputs of the tranI/tranR lines, read from the real EclipseGrid(deck) / EclipseState (their derivation is what the impl/ref lines of the same case check); 1, max(), lowest() and the transmissibility SI factor are read from the real code; the whole-run refinement impl = ref of the calculators is tied by correspondence (proved per loop)",
+    "SCHEDULE multipliers: the state of the six arrays before apply_schedule_keywords is read from the real code and handed to the model",
     "four defects found by the check (design.d/C12.md findings 1-3, 6) are fixed in the code (5ceb9fc1d, d8c0ea4e0, 0679405ff, bf5bceae1); the reproductions of 1-3 run as fixed property-mode witnesses, 6 is covered by the armed accept/reject clause and the OPERATER-then-must-exist generator",
 ]
 
 
 def run(ctx):
     ctx.assumptions += [
-        "decks are METRIC, regular 1x1x1 m cells (PORV zero test modelled with unit volume), no MINPV/GRIDOPTS/MULTREGP/numerical aquifers; ACTNUM values 0/1",
+        "decks are METRIC, FIELD or LAB (interleaved within the process), regular unit cells 1 m / 1 ft / 1 cm (PORV zero test modelled with unit volume), no MINPV/GRIDOPTS/MULTREGP/numerical aquifers; ACTNUM values 0/1",
         "keyword set restricted to arrays without keyword-specific post-processing (see design.d/C12.md)",
         "every exception is fatal for EclipseState, so a rejection anywhere rejects the deck",
     ]
